@@ -51,3 +51,26 @@ PROPS["C11"] = dict(
     assumptions=["reference semantics TwigSem.tla is the oracle; TLC checks NonInterference on the model itself",
                  "inside macros every variable that is read is a parameter (the property does not say whether a macro sees its caller's variables)"],
 )
+
+PROPS["C12"] = dict(
+    level="model_checking",
+    stages=[dict(name="enum", module="MC_C12", cfg={"quick": "MC_C12_quick.cfg", "thorough": "MC_C12_thorough.cfg"},
+                 timeout={"quick": 300, "thorough": 900})],
+    rule="one case per (arity, default subset, argument count, body kind, call site); each rendered in every applicable call "
+         "form (local, _self, import as, from import, from import as); TLC checks FormsAgree on the model; all non-trivial",
+    assumptions=["reference semantics TwigSem.tla (BindParams/CallMacro) is the oracle",
+                 "macro bodies read only their parameters and own assignments; sibling macro calls only in the local form"],
+)
+
+PROPS["C06"] = dict(
+    level="model_checking",
+    stages=[dict(name="enum", module="MC_C06", cfg={"quick": "MC_C06_quick.cfg", "thorough": "MC_C06_thorough.cfg"},
+                 timeout={"quick": 300, "thorough": 900})],
+    nontrivial=lambda r: "pol:allow" not in (r.get("tags") or []),
+    rule="one case per (position of the forbidden name, function|filter, route below the sandbox boundary, policy); spy "
+         "callbacks count invocations; forbidden => security error and the forbidden spy's count is 0 whatever the outcome, "
+         "outside-the-sandbox spies counted 1; non-trivial = the policy forbids the name",
+    assumptions=["TLC checks Confined on the model (sandbox flag inherited by construction in TwigSem)",
+                 "macro names, parent and the helper spies are on the allow-list: the property does not say whether a macro call is a 'function'",
+                 "the engine's apply tag takes a bare filter name, so the apply position uses an argument-less spy filter"],
+)
